@@ -2,3 +2,4 @@ import HpoProofs.Group
 import HpoProofs.TermId
 import HpoProofs.Hypergeom
 import HpoProofs.Enrich
+import HpoProofs.Linkage
